@@ -72,10 +72,10 @@ def merge_shard_infos(updates: list[ShardListInfo], dataset_root: Path,
     # Check correctness of this implementation (O(1) check just to make sure we
     # do not forget anything).
     assert len(current_level) + len(deeper_updates) == len(updates)
-    # Since the ShardsList is saved in a file named shards_list.json there can
-    # be at most one update in this depth. We can ignore it since it has been
-    # loaded into root_shard_list.
-    assert len(current_level) <= 1
+    # Since the ShardsList is saved in a file named shards_list.json all
+    # updates in this depth refer to the same file (there are several of them
+    # when a known child is written into again). We can ignore them since the
+    # file has been loaded into root_shard_list.
 
     # Move children of root_shard_list into deeper_updates to let recursion
     # merge everything.
